@@ -14,10 +14,10 @@ import (
 // txnAnchors locates the functions the transaction rules talk about, structurally.
 type txnAnchors struct {
 	fQueue, fWatches *types.Var
-	dispatchHandler  *ssa.Function           // contains the handler dispatch site
+	dispatchHandler  *ssa.Function // contains the handler dispatch site
 	dispatchSite     ssa.CallInstruction
-	prepare          *ssa.Function           // appends to *cs.cmdQueue
-	appendStore      *ssa.Store              // the store of the appended slice
+	prepare          *ssa.Function // appends to *cs.cmdQueue
+	appendStore      *ssa.Store    // the store of the appended slice
 	handlers         map[string]*ssa.Function
 	errs             []string
 }
